@@ -131,7 +131,17 @@ def run(tier):
     chk = Check(PROP, tier)
     chk.model("MC_Vectors")
     chk.model("MC_GcmToy", cfg="MC_GcmToy_quick.cfg" if tier == "quick" else "MC_GcmToy.cfg", timeout=3000)
-    chk.exec_and_validate("T_GCM", gen(chk, tier), keyfn, cost=cost, accel=True, pure_budget=12000000)
+    cmds_all = gen(chk, tier)
+    chk.exec_and_validate("T_GCM", cmds_all, keyfn, cost=cost, accel=True, pure_budget=12000000)
+    # the arm64 Go glue transplanted onto the amd64 kernels: a sample of every class
+    scs = sorted(set(c["sc"] for c in cmds_all))
+    sel = set(scs[::4]) if tier == "quick" else set(scs)
+    gl = [dict(c) for c in cmds_all if c["sc"] in sel]
+    for c in gl:
+        if c["op"] == "scenario":
+            c["cls"] = "glue_" + c.get("cls", "")
+    chk.exec_and_validate("T_GCM", gl, lambda b: "glue." + keyfn(b), cost=cost, accel=True, pure_budget=0, tag="glue",
+                          variant="glue")
     return chk.finish(
         "model_checking",
         "sealed messages of every kernel-ladder class, tag sizes 12..16 and nonce sizes 1/12/16/129; for each: the "
